@@ -7,12 +7,14 @@
 (* create MultiEndpoints, drop obsolete ones, close obsolete pools, push the *)
 (* pools' connectivity).  MultiEndpoints run without recovery timeout and    *)
 (* switching delay, so each one's current endpoint follows Exp (see          *)
-(* GCPMEGhost; the timer behaviour is the subject of ME.tla).                *)
+(* GCPMEGhost; the timer behaviour is the subject of ME.tla).  The harness   *)
+(* replays every script a second time with a recovery timeout and a         *)
+(* switching delay on a virtual clock (inputs "tick"): see GCPMEGhost.       *)
 (* Every action builds the event the harness would record after settling.    *)
 (***************************************************************************)
 EXTENDS GCPMEGhost, Json
 
-CONSTANTS MaxDepth, Endpoints, OptSets, MaxRpc
+CONSTANTS MaxDepth, Endpoints, OptSets, MaxRpc, Ticks   \* Ticks: clock advances offered as inputs (no effect without timers)
 
 VARIABLES alive, closed, mes, def, pools, up, cur, conns, g, ev, hist
 mvars == <<alive, closed, mes, def, pools, up, cur, conns>>
@@ -39,7 +41,7 @@ Init ==
   /\ ev = [op |-> "reset"]
   /\ hist = <<>>
 
-BaseEv(op) == [op |-> op, mes |-> <<>>, def |-> "", faildial |-> 0, e |-> "", name |-> "", res |-> "OK", srv |-> "", dials |-> <<>>,
+BaseEv(op) == [op |-> op, mes |-> <<>>, def |-> "", faildial |-> 0, e |-> "", name |-> "", n |-> 0, res |-> "OK", srv |-> "", dials |-> <<>>,
                conns |-> conns, pools |-> <<>>, routes0 |-> cur, routes |-> cur, settled |-> TRUE, gor |-> 0, i |-> Len(hist) + 1]
 
 SetToSeq(S) == LET RECURSIVE F(_)
@@ -118,6 +120,12 @@ Rpc(n) ==
                                      !.pools = SetToSeq(pools)], [op |-> "rpc", name |-> n])
   /\ UNCHANGED mvars
 
+\* the clock advances: without recovery timeout / switching delay nothing is pending, routes stay
+Tick(n) ==
+  /\ alive /\ ~closed
+  /\ Commit([BaseEv("tick") EXCEPT !.n = n, !.pools = SetToSeq(pools)], [op |-> "tick", n |-> n])
+  /\ UNCHANGED mvars
+
 Close ==
   /\ alive /\ ~closed
   /\ closed' = TRUE
@@ -130,14 +138,15 @@ Next ==
   /\ \/ \E k \in OptSets, fd \in {0, 1, 2} : Configure(IF alive THEN "update" ELSE "new", k, fd)
      \/ \E e \in Endpoints, b \in BOOLEAN : Flip(e, b)
      \/ \E n \in {"", "m1", "m2", "zz"} : Rpc(n)
+     \/ \E n \in Ticks : Tick(n)
      \/ Close
 
 Spec == Init /\ [][Next]_vars
 
 AllOK == \A c \in GClauses(g, ev', g') : c.ok
 PAll == [][AllOK]_vars
-P15 == [][\A c \in {x \in GClauses(g, ev', g') : x.id \in {"C15_a", "C15_a2", "C15_b", "C15_c", "C15_d"}} : c.ok]_vars
-P16 == [][\A c \in {x \in GClauses(g, ev', g') : x.id \in {"C16_a", "C16_b", "C16_c", "C16_d", "C16_e", "C16_f"}} : c.ok]_vars
+P15 == [][\A c \in {x \in GClauses(g, ev', g') : x.id \in {"C15_a", "C15_a2", "C15_b", "C15_c", "C15_d", "C15_r", "C15_t"}} : c.ok]_vars
+P16 == [][\A c \in {x \in GClauses(g, ev', g') : x.id \in {"C16_a", "C16_b", "C16_c", "C16_d", "C16_e", "C16_f", "C16_g", "C16_h"}} : c.ok]_vars
 
 TypeOK ==
   /\ alive /\ ~closed => Mentioned(mes) \subseteq pools
